@@ -64,6 +64,34 @@ def query_mix(ev, N, m, lo, up, tag):
                 msgs.append(f"{tag}: GetImage({x}) asked the {rep}. time returns {y.tolist()}, the {name} cell is {ref.tolist()}")
                 break
     lo_f, up_f = np.asarray(lo, dtype=float), np.asarray(up, dtype=float)
+    # the same query spelled differently (x as a 0-d array or a numpy scalar), asked of a shallow copy of the object, and
+    # of an object built with numpy-integer dimension / density: one curve
+    import copy as _copy
+    try:
+        twin = Evolvent(lo_f.copy(), up_f.copy(), np.uint8(N), np.uint8(m))
+    except Exception as e:
+        twin = None
+        msgs.append(f"{tag}: Evolvent(..., np.uint8({N}), np.uint8({m})) raised {type(e).__name__}: {e}")
+    for i in sorted({0, n // 3, n - 1}):
+        for x in ((i + 0.3) / n, 1.0, 0.0):
+            ref = ev.GetImage(x)
+            forms = [("a 0-d array", lambda: ev.GetImage(np.array(x))), ("np.float64", lambda: ev.GetImage(np.float64(x))),
+                     ("a shallow copy of the object", lambda: _copy.copy(ev).GetImage(x)),
+                     ("the object once more", lambda: ev.GetImage(x))]
+            if twin is not None and np.array_equal(np.asarray(ev.lowerBoundOfFloatVariables, dtype=float), lo_f) \
+                    and np.array_equal(np.asarray(ev.upperBoundOfFloatVariables, dtype=float), up_f):
+                forms.append(("an object built with np.uint8 dimension and density", lambda: twin.GetImage(x)))
+            for name, fn in forms:
+                try:
+                    got = fn()
+                except Exception as e:
+                    msgs.append(f"{tag}: GetImage({x!r}) asked through {name} raised {type(e).__name__}: {e}")
+                    break
+                if not np.array_equal(got, ref):
+                    msgs.append(f"{tag}: GetImage({x!r}) is {ref.tolist()}, asked through {name} it is {np.asarray(got).tolist()}")
+                    break
+            if msgs:
+                return msgs
     if N >= 2 and np.array_equal(lo_f, -up_f):
         # a box symmetric about the origin: a coordinate given as -0.0 is the same point as +0.0
         for ax in range(N):
